@@ -1,11 +1,11 @@
 """C14 - JSON snapshots are canonical and lossless."""
 import json, base64, random
-import core, findings, docs
+import core, findings, docs, jsongen
 from core import World, hx, Line, parse_fs
 from gen import Gen, mode_line, cfg_line
 from suites import run_suite, parse_snap
 
-LEAN_MODULES = ['GoSnaps.Props.C14', 'GoSnaps.Props.Tie.Flows', 'GoSnaps.Props.Tie.Wrappers']
+LEAN_MODULES = ['GoSnaps.Props.C14', 'GoSnaps.DriverX', 'GoSnaps.Lemmas.Json', 'GoSnaps.Props.C14Json', 'GoSnaps.Props.Tie.Flows', 'GoSnaps.Props.Tie.Wrappers']
 
 
 def gen_value(r, depth=0, simple_numbers=False):
@@ -177,7 +177,136 @@ def make_world(g, tag):
     return w
 
 
+# ---------------------------------------------------------------- json.model (tier B)
+# The Lean model of the two library functions (lean/GoSnaps/Json.lean: jsonValid = gjson.Valid,
+# pretty = pretty.PrettyOptions) against the real libraries, one document per `jsonfmt` line:
+# verdict and output must agree byte for byte.  The theorems of Props/C14Json.lean are about the
+# model; this comparison is what makes them statements about what go-snaps stores.
+
+JM_INDENTS = [b' ', b' ', b'  ', b'\t', b'']
+JM_WIDTHS = [0, 0, 20, 80]
+
+
+def _jm_out(raw):
+    """'jsonfmt valid=1 parse=1 out=<hex>' -> (valid, bytes)"""
+    f = dict(x.split('=', 1) for x in raw.split(' ')[1:] if '=' in x)
+    return f.get('valid'), core.unhx(f.get('out', '-'))
+
+
+def jm_case_world(r, i):
+    """one document under one option set: compact text, white-space variants, a member permutation"""
+    w = World('jm-%d' % i)
+    shape = r.random()
+    if shape < 0.30:
+        t = jsongen.width_tree(r)
+        width = r.choice([20, 20, 80, 0, 4, 3, 5, -1, 1000])
+        lens = [len(o) for o in (jsongen.one_line(a) for a in jsongen.arrays_of(t)) if o is not None]
+        if lens and r.random() < 0.5:
+            # a width within a few columns of where some array of the document stops fitting
+            width = r.choice(lens) + r.randrange(0, 16)
+    elif shape < 0.42:
+        t = jsongen.tie_tree(r)
+        width = r.choice(JM_WIDTHS)
+    else:
+        t = jsongen.tree(r, 0, r.choice([1, 2, 3, 4, 5, 6]))
+        width = r.choice(JM_WIDTHS)
+    sk = r.random() < (0.9 if 0.30 <= shape < 0.42 else 0.6)
+    indent = r.choice(JM_INDENTS)
+    opt = '%d %s %d' % (1 if sk else 0, hx(indent), width)
+    docs = [('compact', jsongen.compact(t)), ('ws', jsongen.spaced(r, t, 0.3)), ('ws', jsongen.spaced(r, t, 0.9))]
+    twins = jsongen.has_dup_or_twin(t, jsongen.go_unquote)
+    pt = jsongen.permute(r, t)
+    docs.append(('perm', jsongen.spaced(r, pt, 0.4)))
+    if r.random() < 0.3:
+        # the same text under another option set
+        opt2 = '%d %s %d' % (r.randrange(2), hx(r.choice(JM_INDENTS)), r.choice([0, 20, 80]))
+    else:
+        opt2 = None
+    idx = []
+    for kind, d in docs:
+        idx.append((kind, w.add('jsonfmt %s %s' % (hx(d), opt))))
+    if opt2:
+        w.add('jsonfmt %s %s' % (hx(docs[0][1]), opt2))
+    w.meta = dict(stream='valid', depth=jsongen.depth_of(t), sizes=[len(d) for _, d in docs], sk=sk, width=width, indent=indent,
+                  twins=twins, shape='width' if shape < 0.30 else 'ties' if shape < 0.42 else 'general')
+
+    def oracle(line, raw, ww):
+        outs = [(k, _jm_out(ww.impl[j])) for k, j in idx]
+        if any(v != '1' for _, (v, _) in outs):
+            return 'a generated document is rejected by gjson: %r' % [docs[n][1][:80] for n, (_, (v, _)) in enumerate(outs) if v != '1'][:1]
+        base = outs[0][1][1]
+        for (k, (_, o)), (_, d) in zip(outs, docs):
+            if k == 'ws' and o != base:
+                return 'white space between tokens changed the output: %r' % d[:120]
+            if k == 'perm' and sk and not twins and o != base:
+                return 'member order changed the output although SortKeys is on and keys are distinct: %r' % d[:120]
+        if not base.endswith(b'\n') or base.endswith(b'\n\n'):
+            return 'output does not end with exactly one newline'
+        if any(l.strip(b' \t\r') == b'---' for l in base.split(b'\n')):
+            return 'output has a line equal to the entry terminator'
+        return None
+    w.expect[idx[-1][1]] = ('json-lib-ws-and-order-invariant', oracle)
+    return w
+
+
+def jm_bad_world(r, i):
+    w = World('jmbad-%d' % i)
+    kinds = []
+    for _ in range(8):
+        base = jsongen.compact(jsongen.tree(r, 0, r.choice([1, 2, 3])))
+        if base[:1] not in b'[{' or r.random() < 0.2:
+            base = b'{"a":[1,"x",{"b":null}],"c":-0.5e+3}'
+        k, d = jsongen.malformed(r, base)
+        kinds.append((k, len(d)))
+        w.add('jsonfmt %s 1 %s 0' % (hx(d), hx(b' ')))
+    w.meta = dict(stream='malformed', kinds=kinds)
+    return w
+
+
+def jm_stats(ctx, worlds):
+    d = ctx.stats['dist']
+
+    def inc(k, n=1):
+        d['json.model ' + k] = d.get('json.model ' + k, 0) + n
+    for w in worlds:
+        impl = getattr(w, 'impl', None) or []
+        verdicts = [_jm_out(l)[0] for l in impl[1:] if l.startswith('jsonfmt ')]
+        inc('documents', len(verdicts))
+        inc('valid', sum(1 for v in verdicts if v == '1'))
+        inc('invalid', sum(1 for v in verdicts if v == '0'))
+        m = w.meta
+        if m.get('stream') == 'valid':
+            inc('depth=%d' % m['depth'])
+            inc('shape=%s' % m['shape'])
+            inc('width=%s' % (m['width'] if m['width'] in (-1, 0, 20, 80) else 'other'))
+            inc('indent=%r' % m['indent'].decode())
+            inc('sortKeys=%s' % m['sk'])
+            if m['twins']:
+                inc('with duplicate / unescape-equal keys')
+            for s in m['sizes']:
+                inc('size%s' % jsongen.size_bucket(s))
+            outs = [_jm_out(l)[1] for l in impl[1:] if l.startswith('jsonfmt ')]
+            if outs and m['width'] > 0 and any(b', ' in l and l.strip().startswith(b'[') for l in outs[0].split(b'\n')):
+                inc('output has a single-line array')
+        else:
+            for (k, n), v in zip(m['kinds'], verdicts):
+                inc('malformed:%s/%s' % (k, 'accepted' if v == '1' else 'rejected'))
+                inc('size%s' % jsongen.size_bucket(n))
+
+
+def run_json_model(ctx):
+    r = random.Random(ctx.seed * 7919 + 1414)
+    n_case, n_bad = (4000, 800) if ctx.tier == 'quick' else (40000, 8000)
+    worlds = [jm_case_world(r, i) for i in range(n_case)] + [jm_bad_world(r, i) for i in range(n_bad)]
+    run_suite(ctx, 'json.model', worlds, known=None, chunk=500)
+    jm_stats(ctx, worlds)
+    ctx.notes.append('json.model: the Lean model of gjson.Valid and pretty.PrettyOptions (lean/GoSnaps/Json.lean) is compared with the real '
+                     'libraries on every document (verdict and output, byte for byte; the model\'s structural parser must give the '
+                     'validator\'s verdict); the theorems of Props/C14Json.lean are about that model')
+
+
 def run(ctx):
+    run_json_model(ctx)
     g = Gen(ctx.seed * 1000003 + 14)
     n = 300 if ctx.tier == 'quick' else 8000
     worlds = [make_world(g, 'c14-%d' % i) for i in range(n)]
